@@ -12,10 +12,21 @@ Import ListNotations.
 Definition follows (n : nat) (src tg : list N) : bool :=
   forallb (fun i => Bool.eqb (act src i) (act tg i)) (seq 0 n).
 
-(* every call on the source returned Executed without having been stuck in
-   the target (log entries of Conc/Pipes.v: 0 = returned at once, Executed) *)
+(* every call on the source returned at once - Executed, or Canceled by the
+   history's OWN scripted veto - without having been stuck in the target
+   (log entries of Conc/Pipes.v: 0 = returned at once, Executed; 4 = vetoed
+   by the script; 3 = returned only after the target went on; 1/2 = Canceled /
+   Queued for another reason) *)
 Definition src_unhindered (log : list N) : bool :=
-  forallb (fun x => N.eqb x 0) log.
+  forallb (fun x => N.eqb x 0 || N.eqb x 4) log.
+
+(* a pipe handler runs only in a source transition that changed a piped
+   state: per source call, (pipe handlers invoked, a piped tick moved) *)
+Fixpoint events_justified (evlog : list N) (chglog : list bool) : bool :=
+  match evlog, chglog with
+  | e :: r, c :: s => (N.eqb e 0 || c) && events_justified r s
+  | _, _ => true
+  end.
 
 (* BindAny: the target's active set equals the source's *)
 Fixpoint sets_equal (a b : list bool) : bool :=
